@@ -1,8 +1,9 @@
-"""E9: field-sensitive symbolic execution of small MIR bodies, path by path, with a store that understands references.
+"""E9: field-sensitive forward value-flow analysis of small MIR bodies (path-split dataflow; abstract values are expression trees,
+as in E4/E5; no solver, no execution of crate code), with an abstract store that understands references.
 
 The expression engine (expr.py) follows definitions of *locals*; it does not compose assignments to single fields of a by-value
 struct (`options.permissions = Some(..)`), nor writes through a `&mut` obtained from `Option::as_mut().unwrap()` /
-`get_or_insert(..)`.  The writer's public openers build their `FileOptions` exactly that way.  This engine executes a body forward
+`get_or_insert(..)`.  The writer's public openers build their `FileOptions` exactly that way.  This engine propagates abstract values forward
 along every acyclic path (a loop body is entered at most once) with
 
   * a store keyed by (local, projection) -- a write to `_3.permissions` and a later copy `_16 = _3` compose;
